@@ -104,8 +104,11 @@ class Check:
             "wall_s": round(time.time() - self.t0, 2),
             "violations": len(new),
         }
-        os.makedirs(os.path.join(VERIF, "evidence"), exist_ok=True)
-        with open(os.path.join(VERIF, "evidence", self.pid + ".json"), "w") as fh:
+        # GX_EVIDENCE_DIR: where to write evidence when a variant tree (GX_REPO) is analysed while developing rules; the registered
+        # commands never set it and always write /verif/evidence
+        evdir = os.environ.get("GX_EVIDENCE_DIR", os.path.join(VERIF, "evidence"))
+        os.makedirs(evdir, exist_ok=True)
+        with open(os.path.join(evdir, self.pid + ".json"), "w") as fh:
             json.dump(ev, fh, indent=1, sort_keys=True)
         print("%s [%s]: %d obligation(s), %d discharged, %d finding(s) (%d listed as known)" % (self.pid, self.tier, n_ob, n_ok, len(self.findings), len(listed)))
         for f, k in listed:
